@@ -86,6 +86,17 @@ public:
       if (IV) Induct.erase(IV);
       return r;
     }
+    if (auto *IS = dyn_cast<IfStmt>(S)) {
+      std::string r = "I(" + shape(IS->getCond(), F, depth + 1) + "," + shape(IS->getThen(), F, depth + 1);
+      if (IS->getElse()) r += "," + shape(IS->getElse(), F, depth + 1);
+      return r + ")";
+    }
+    if (auto *DS = dyn_cast<DeclStmt>(S)) {
+      std::string r = "V(";
+      bool first = true;
+      for (auto *D : DS->decls()) if (auto *VD = dyn_cast<VarDecl>(D)) { if (!first) r += ","; first = false; r += VD->getNameAsString(); }
+      return r + ")";
+    }
     if (auto *C = dyn_cast<CompoundStmt>(S)) {
       std::string r = "{"; bool first = true;
       for (auto *X : C->body()) { if (isa<NullStmt>(X)) continue; if (!first) r += ";"; first = false; r += shape(X, F, depth + 1); }
